@@ -106,6 +106,9 @@ pub enum SchedKind {
     Sticky { switch: u8 },
     /// run the current task except at up to `points` switch points among the first `horizon` yields
     Bursty { points: u8, horizon: u32 },
+    /// PCT: random distinct priorities, the highest-priority ready task runs; at `depth` random change
+    /// points among the first `horizon` decisions the running task drops below everyone else
+    Pct { depth: u8, horizon: u32 },
 }
 
 /// Hasher mode. Keys / contexts come from data entries.
@@ -133,6 +136,9 @@ pub enum RStep {
     Err(u8),
     /// Ok(0) now, even if data remains
     Eof,
+    /// yield up to k bytes, but before returning hash `nested` other bytes through update_reader on
+    /// another hasher on this very thread (a reader that demultiplexes into several hashers)
+    Nest(u32, u32),
 }
 
 #[derive(Serialize, Deserialize, Clone, Debug, PartialEq)]
@@ -183,6 +189,8 @@ pub enum FinVia {
     TraitReset,
     /// Mac::finalize on a clone (keyed) / Digest::finalize on a clone
     MacOrDigest,
+    /// ExtendableOutputReset::finalize_xof_reset_into (XOF only; resets the hasher)
+    TraitResetInto,
 }
 
 #[derive(Serialize, Deserialize, Clone, Copy, Debug, PartialEq)]
@@ -225,12 +233,17 @@ pub enum Op {
     Finalize { h: usize, via: FinVia },
     /// finalize_xof, read `n` bytes, optionally keep the reader in slot `r`
     FinalizeXof { h: usize, r: Option<usize>, n: usize, via: FinVia },
+    /// several hashers fed by update_rayon at the same time from tasks spawned inside one real rayon pool
+    /// (work stealing may nest one top-level update inside another on the same worker thread)
+    ParallelRayon { items: Vec<(usize, usize, usize, usize)>, width: u8 },
     /// two child tasks finalize / finalize_xof the same &Hasher concurrently
     ConcurrentFinalize { h: usize, n: usize },
     FinalizeNonRoot { h: usize, cv: usize },
     SetOffset { h: usize, off: u64 },
     Reset { h: usize, via: ResetVia },
     CloneH { h: usize, new: usize },
+    /// dst.clone_from(&src): the destination keeps its identity (and whatever a sloppy impl forgets to overwrite)
+    CloneFromH { src: usize, dst: usize },
     DropSlot { slot: usize },
     /// hand an object (hasher / reader / cv) to another task through the mailbox
     Send { slot: usize, to: usize },
@@ -310,10 +323,12 @@ impl Op {
             Op::Finalize { .. } => "Finalize",
             Op::FinalizeXof { .. } => "FinalizeXof",
             Op::ConcurrentFinalize { .. } => "ConcurrentFinalize",
+            Op::ParallelRayon { .. } => "ParallelRayon",
             Op::FinalizeNonRoot { .. } => "FinalizeNonRoot",
             Op::SetOffset { .. } => "SetOffset",
             Op::Reset { .. } => "Reset",
             Op::CloneH { .. } => "CloneH",
+            Op::CloneFromH { .. } => "CloneFromH",
             Op::DropSlot { .. } => "DropSlot",
             Op::Send { .. } => "Send",
             Op::Recv { .. } => "Recv",
